@@ -9,7 +9,8 @@ from hypothesis import strategies as st
 
 from vlib import gen_hed
 
-COLS = ["trial_type", "resp", "stim_file", "rt", "cond", "blockx"]
+# column names: the characters a curly-brace reference may hold are letters, digits, '_' and '-', in any case
+COLS = ["trial_type", "resp", "stim_file", "rt", "cond", "blockx", "2", "Resp-Time", "a_b"]
 KEYS = ["go", "stop", "left", "right", "k1", "k2", "Aa", "7"]
 
 
